@@ -67,6 +67,7 @@ def run(repo, run, tier):
     slots(repo, run)
     shape(repo, run)
     acceptance(repo, run)
+    step_norm_freshness(repo, run)
 
 
 # ------------------------------------------------------------------------------------------------
@@ -350,3 +351,56 @@ def acceptance(repo, run):
             run.report("C15.4", OPT, acc, "%s accepts the trial point under a NEGATED ordering test (%s): when the quantity is NaN (0/0 for a zero step) the point is accepted, "
                                           "the step norm is 0 and the step-size criterion reports success at the unchanged initial guess" % (q, bad[0].split("@")[0]),
                        text="%s acceptance under negated comparison `%s`" % (q, bad[0].split("@")[0]))
+
+
+# ------------------------------------------------------------------------------------------------
+def step_norm_freshness(repo, run):
+    """the step norm that enters the success expression must be the norm of THIS iteration's step: computed unconditionally in every iteration, after the last
+    place where the step is (re)bound and before the success expression.  A norm computed only when a trial point is accepted is, on an iteration without
+    progress, the value of an earlier iteration -- or the zero it was initialised with, which the step-size test then certifies as convergence at the initial guess."""
+    from ..imodel import path_key
+    from ..sym import path_condition, tree_atoms
+    rid = run.rule("C15.5", "in each iteration of hybrj / newtontrustregion every step-norm name read by the success expression is (re)computed unconditionally at the "
+                            "top level of the loop body from the step name, after the last rebinding of the step and before the success expression", floor=2)
+    for q in ("hybrj", "newtontrustregion"):
+        fn = repo.get(OPT, q)
+        loops = [st for st in fn.body if isinstance(st, ast.For)]
+        if not loops:
+            raise AnalysisError("%s: iteration loop not found" % q)
+        lp = loops[-1]
+        succ = [st for st in ast.walk(lp) if isinstance(st, ast.Assign) and src(st.targets[0]) == "success"]
+        if not succ:
+            raise AnalysisError("%s: success assignment not found in the iteration loop" % q)
+        names = {x.id for st in succ for x in ast.walk(st.value) if isinstance(x, ast.Name)}
+        # step-norm names: assigned from norm(<step>) somewhere in the function
+        norm_defs = {}
+        for st in ast.walk(fn):
+            if isinstance(st, ast.Assign) and isinstance(st.targets[0], ast.Name) and st.targets[0].id in names:
+                calls = [c for c in ast.walk(st.value) if isinstance(c, ast.Call) and (fname(c) or "").split(".")[-1] == "norm" and c.args and isinstance(c.args[0], ast.Name)]
+                if calls and calls[0].args[0].id in ("dx", "__dx", "step", "delta"):
+                    norm_defs.setdefault(st.targets[0].id, []).append((st, calls[0].args[0].id))
+        if not norm_defs:
+            raise AnalysisError("%s: no step-norm name is read by the success expression" % q)
+        first_succ = min(succ, key=lambda s_: path_key(s_, fn))
+        for nm, defs in sorted(norm_defs.items()):
+            in_loop = [(st, stepname) for st, stepname in defs if any(a is lp for a in ancestors(st))]
+            ok = False
+            why = "it is not recomputed inside the iteration loop"
+            for st, stepname in in_loop:
+                top = st._parent is lp
+                before = path_key(st, fn) < path_key(first_succ, fn)
+                rebinds = [w for w in ast.walk(lp) if isinstance(w, (ast.Assign, ast.AugAssign)) and any(
+                    isinstance(t, ast.Name) and t.id == stepname for tg in (w.targets if isinstance(w, ast.Assign) else [w.target]) for t in ast.walk(tg))
+                    and path_key(w, fn) < path_key(first_succ, fn)]
+                after_all = all(path_key(w, fn) < path_key(st, fn) for w in rebinds)
+                if top and before and after_all:
+                    ok = True
+                elif not top:
+                    why = "it is computed only under a condition (`%s`), so on other iterations the success test reads a stale value" % src(st._parent.test)[:50] if isinstance(
+                        st._parent, ast.If) else "it is computed inside a nested block, not on every iteration"
+                elif not after_all:
+                    why = "the step `%s` is rebound after the norm was taken" % stepname
+            run.judged(rid, "%s: step norm `%s` feeding the success test is fresh in every iteration" % (q, nm), ok=ok)
+            if not ok:
+                run.report("C15.5", OPT, (in_loop[0][0] if in_loop else defs[0][0]), "%s: the step norm `%s` read by the success expression is not the norm of the current iteration's step: %s; "
+                                                                                    "success by step size can then be claimed at a point that was never moved (e.g. the initial guess)" % (q, nm, why))
